@@ -24,6 +24,10 @@ def body_lines(rng, n):
         if k < 0.12:
             out.append(rng.choice(["", " ", "\t", "   \t "]))
             continue
+        if k < 0.2:
+            # hand-aligned continuation lines and column-1 comments with trailing blanks
+            out.append(rng.choice(["#define AL(x)      \\", "   foo(x);         \\", "// column one comment   ", "/* c */   \t", "#define Z 1  \\  "]))
+            continue
         ln = rng.choice(["", " ", "    ", "\t", " \t"])
         for _ in range(rng.randrange(1, 7)):
             ln += rng.choice(words) + rng.choice(["", " ", "  ", "\t"])
@@ -133,6 +137,7 @@ OPTSETS = [
     {"nl_after_semicolon": "true", "nl_if_brace": "force", "nl_brace_else": "force", "code_width": 60, "nl_start_of_file": "remove",
      "nl_end_of_file": "force", "nl_end_of_file_min": 1},
     {"cmt_width": 40, "cmt_reflow_mode": 2, "cmt_star_cont": "true", "newlines": "crlf"},
+    {"disable_processing_nl_cont": "true", "indent_columns": 4, "sp_before_nl_cont": "force"},
 ]
 
 
